@@ -670,7 +670,7 @@ class MatchSpecialLetters(Sub):
     name = 'c18.match_special_letters'
     rule = ('MATCH type 0 over letters whose lower-case form is longer than the letter or depends on its place in the word '
             '(dotted capital I, capital sigma at the end of a word): ? stands for exactly one character of the item, a pattern '
-            'matches an item spelled in the same case, and a wrong position is never returned; 14 patterns x item lists of the '
+            'matches an item spelled in the same case, and a wrong position is never returned; 19 patterns (5 of them over items holding line breaks) x item lists of the '
             'host and literal kind; non-trivial = all')
     min_cases = 10
     min_nontrivial = 10
@@ -690,6 +690,8 @@ class MatchSpecialLetters(Sub):
         ('a??b', ['a\u0130b'], None),
         ('\u1e9e?', ['\u1e9ex'], 1),
         ('?', ['\ufb01'], 1),
+        # * and ? stand for any characters, a line break included
+        ('a*c', ['a\nc'], 1), ('a?c', ['a\nc', 'abc'], 1), ('*', ['\n'], 1), ('x*', ['y', 'x\ny\nz'], 2), ('?', ['ab', '\n'], 2),
     ]
 
     def cases(self, tier, unit):
